@@ -1,0 +1,55 @@
+//go:build verif
+
+// verif_hooks_cache.go: accessors into the attribute/directory caches for the external
+// verification harness (/verif, property C21).  Compiled only with -tags verif; add-only.
+package absnfs
+
+// VerifIsChildOf exposes isChildOf (the rule used by AttrCache.InvalidateNegativeInDir).
+func VerifIsChildOf(path, dirPath string) bool { return isChildOf(path, dirPath) }
+
+// VerifKeys returns the keys of the attribute cache in access-list order (most recently used first).
+func (c *AttrCache) VerifKeys() []string {
+	c.mu.RLock()
+	defer c.mu.RUnlock()
+	out := make([]string, 0, c.accessList.Len())
+	for e := c.accessList.Front(); e != nil; e = e.Next() {
+		if s, ok := e.Value.(string); ok {
+			out = append(out, s)
+		}
+	}
+	return out
+}
+
+// VerifMapLen returns len(c.cache) and accessList.Len() (they must agree).
+func (c *AttrCache) VerifMapLen() (int, int) {
+	c.mu.RLock()
+	defer c.mu.RUnlock()
+	return len(c.cache), c.accessList.Len()
+}
+
+// VerifKeys returns the keys of the directory cache in access-list order (most recently used first).
+func (c *DirCache) VerifKeys() []string {
+	c.mu.RLock()
+	defer c.mu.RUnlock()
+	out := make([]string, 0, c.accessList.Len())
+	for e := c.accessList.Front(); e != nil; e = e.Next() {
+		if s, ok := e.Value.(string); ok {
+			out = append(out, s)
+		}
+	}
+	return out
+}
+
+// VerifMaxEntries returns the directory cache's capacity.
+func (c *DirCache) VerifMaxEntries() int {
+	c.mu.RLock()
+	defer c.mu.RUnlock()
+	return c.maxEntries
+}
+
+// VerifMapLen returns len(c.entries) and accessList.Len() (they must agree).
+func (c *DirCache) VerifMapLen() (int, int) {
+	c.mu.RLock()
+	defer c.mu.RUnlock()
+	return len(c.entries), c.accessList.Len()
+}
